@@ -468,8 +468,8 @@ class Maps:
             if ty in ('str', 'elem', 'callable', 'key'):
                 return False                 # a scalar by precondition: not a list, tuple, dict, range, wrapper ...
             return None
-        if v.kind in ('plist', 'pdict'):
-            return self.is_subclass(v.cls, tname)
+        if v.kind in ('plist', 'pdict') or (v.f.get('cls') is not None and v.kind not in ('cls', 'val')):
+            return self.is_subclass(v.cls, tname)          # any symbolic object that carries its static class name
         if v.kind == 'tuple':
             return tname == 'tuple'
         if v.kind in ('none', 'int', 'bool', 'str', 'func'):
@@ -1006,8 +1006,10 @@ class Maps:
 
     def expr(self, ex, st, e):
         if isinstance(e, ast.List):
-            items = [self.to_val(ex, ex.eval(st, x)) for x in e.elts]
-            return self.mk_list(PList.literal(items))
+            svs = [ex.eval(st, x) for x in e.elts]
+            r = self.mk_list(PList.literal([self.to_val(ex, x) for x in svs]))
+            r.f['items_sv'] = svs            # a literal list keeps its items (string literals stay literals when it is iterated)
+            return r
         if isinstance(e, ast.DictComp):
             return self.dictcomp(ex, st, e)
         if isinstance(e, ast.Dict):
@@ -1039,7 +1041,7 @@ class Maps:
             raise OutOfSubset('filtering comprehension whose element is not the loop variable: %s' % ast.unparse(e)[:60])
         src = it.pl if it.kind == 'plist' else self.keys_list(ex, it.pd)
         env = dict(st.env)
-        elty = it.f.get('elty', 'any') if it.kind == 'plist' else 'key'
+        elty = it.f.get('elty', 'any') if it.kind == 'plist' else it.f.get('kty', 'key')
         theory = self
 
         def cond(x):
@@ -1166,6 +1168,12 @@ class Maps:
             if pl.at is None:
                 raise OutOfSubset('iteration over a list without index view')
             elty = it.f.get('elty', 'any')
+            svs = it.f.get('items_sv')
+            if svs is not None:
+                def at_lit(st2, j):
+                    jj = simplify(zi(j))
+                    return svs[jj.as_long()] if z3.is_int_value(jj) and 0 <= jj.as_long() < len(svs) else V(pl.at(j), elty)
+                return pl.len, at_lit
             return pl.len, (lambda st2, j: V(pl.at(j), elty))
         if it.kind == 'tuple':
             pl = self.as_plist(ex, it)
